@@ -391,7 +391,7 @@ class Shim(object):
             try:
                 c_, (t_, d_) = r.__reduce__()
                 t_ = list(t_)
-                t_[1] = 2
+                t_[1] = 987654321
                 d_ = dict(d_)
                 r = c_(tuple(t_), d_)
             except Exception:
